@@ -1094,7 +1094,7 @@ class PyExec:
         if isinstance(op, (ast.In, ast.NotIn)) and isinstance(b, Ref) and st is not None and isinstance(st.heap[b.id], PList):
             b = list(st.heap[b.id].items)
         if isinstance(op, (ast.Is, ast.IsNot)):
-            if a is not b and a is not None and b is not None and any(isinstance(x, Opaque) and getattr(x, "unknown", False) for x in (a, b)):
+            if a is not b and any(isinstance(x, Opaque) and getattr(x, "unknown", False) for x in (a, b)):
                 return Opaque("identity test on a value the model knows nothing about")      # both outcomes are explored
             r = (a is b) or (a is None and b is None)
             if is_sym(a) or is_sym(b):
@@ -1461,6 +1461,8 @@ class PyExec:
                 return Hooked(lambda ex, st_, args, kwargs, hk=hk, sr=o.self_ref: hk(ex, st_, [sr] + list(args), kwargs))
             raise CheckerError("super().%s: base class of %s is not in this module and no hook is given" % (a, cls))
         if isinstance(o, ModuleRef):
+            if a == "pi" and o.name in ("numpy", "math"):
+                return z3.Real("pi")          # the constant pi: a positive real symbol (its digits are never needed)
             return ModuleRef(o.name + "." + a)
         if isinstance(o, Ref):
             obj = st.heap[o.id]
